@@ -171,6 +171,16 @@ CHECKS = {
              "iff reading s yields exactly that symbol and Keyword(s) iff reading ':'+s yields that keyword; for every "
              "delimiter/content pair String(s, brackets=d) must succeed iff #[d[s]d] reads back as s.",
         note="The reader side is the real reader, compared with HyReader's verdict on every text (C18 binding)."),
+    "C28": dict(
+        engine="models", level="model_checking", design="5.5, 6/C28",
+        technique="TLC explores HyReprState (hy.repr's _quoting/_seen machine) over all small object graphs and call "
+                  "histories with raising printers; histories replayed on real objects; recorded steps trace-validated",
+        text="The spec has one action per step of hy-repr (enter with seen-check, descend, printer raising, exit in "
+             "finally); TLC checks on every graph/history that the state is clean between top-level calls and that each "
+             "successful call prints what a fresh interpreter prints (and that dropping the finally breaks it); the "
+             "histories are replayed with real containers, models and a registered raising printer, outputs compared with "
+             "a clean-state reference, and the (_quoting, |_seen|) snapshots of every nested call validated by TLC.",
+        note="Graphs whose cycles pass only through immutable models cannot be built and are skipped."),
     "C30": dict(
         engine="models", level="model_checking", design="5.5, 6/C30",
         technique="HyQuasi (render_quoted_form as a function on trees): QuoteIsIdentity checked by TLC per template; "
